@@ -50,16 +50,20 @@ def rerun(ctx, case_lines):
 
 
 def _clean_prefix(ctx, trace, bad, ncases, name):
-    """first ncases cases of `trace` that contain no rejected line -> new file (self-tests need an accepted baseline)"""
+    """up to ncases cases of `trace`, evenly spread over the file, that contain no rejected line -> new file (self-tests
+    need an accepted baseline that contains every kind of answer)"""
     lines = lib.read_lines(trace)
     badset = set(bad)
-    out, n, i = [], 0, 0
-    while i < len(lines) and n < ncases:
+    clean, i = [], 0
+    while i < len(lines):
         s, e = lib.case_at(lines, i + 1)
         if not any(ln in badset for ln in range(s, e + 1)):
-            out += lines[s - 1:e]
-            n += 1
+            clean.append((s, e))
         i = e
+    stride = max(1, len(clean) // ncases)
+    out = []
+    for s, e in clean[::stride][:ncases]:
+        out += lines[s - 1:e]
     p = os.path.join(ctx.scratch, name)
     with open(p, "w") as f:
         f.write("".join(x + "\n" for x in out))
@@ -123,12 +127,12 @@ def run(ctx):
     lib.handle_rejections(ctx, res, lambda cl: rerun(ctx, cl))
 
     # 5. binding self-tests on an accepted slice of the recording
-    parts = [_clean_prefix(ctx, t, bad, 60, "selftest_part_%d.ndjson" % i) for i, (t, bad) in enumerate(res)]
+    parts = [_clean_prefix(ctx, t, bad, max(40, 900 // len(res)), "selftest_part_%d.ndjson" % i) for i, (t, bad) in enumerate(res)]
     base = os.path.join(ctx.scratch, "selftest_base.ndjson")
     with open(base, "w") as f:
         for p in parts:
             f.write(open(p).read())
-    is206 = lambda r: r["status"] == 206 and r["method"] == "GET" and r["runs"]
+    is206 = lambda r: r["status"] == 206 and r["method"] == "GET" and r["runs"] and r["flen"] > 0   # a plain file target
 
     def shift(r):
         r["runs"][0]["from"] += 1; r["runs"][0]["to"] += 1
